@@ -13,6 +13,7 @@ LEVEL_TEXT = ("Bounded verification by symbolic execution of the real CircularRe
 LEVEL_NOTE = ("Bounds: n<=9 quick / n<=12 thorough for membership (query length 0..n+2), n<=8/12 for slices, topology strings of "
               "length <=8 over the letters of 'circular'/'linear' in both cases plus one foreign letter. Trusted: z3, CPython, "
               "symx models of Bio.Seq/SeqRecord (validated against Biopython on every run).")
+LEVEL_NOTE_EXTRA = 'Also: membership and slices of a record that was used before and edited in place; slices with a step (case family).'
 TECHNIQUE = "bounded symbolic execution of the real Python source (symx) with z3; some-rotation oracle; replay on the real stack"
 EXPLANATION = ("symbolic execution of record.py's __contains__, _ambiguous wrappers, __init__ topology check, __getitem__ and "
                "__rshift__ on symbolic records, queries, slice bounds and topology strings; z3 decides each assertion")
